@@ -36,7 +36,7 @@ Then write a demonstration: a Go test file (placed in the relevant package of th
 
 Procedure and rules:
 - Every shell call must `export GOFLAGS=-mod=mod GOPROXY=off GOSUMDB=off GOTOOLCHAIN=local`; there is no network. Run tests with `go test -vet=off -count=1 ./path/to/pkg/`. If `git status` shows go.sum modified by the go tool, restore it (`git checkout go.sum`).
-- First read the relevant code and its existing tests so your change slips past them. Verify claim 1 by actually running those tests with your change; verify the demonstration both ways (with the change: fails; `git stash` the source change / or apply-reverse: passes).
+- First read the relevant code and its existing tests so your change slips past them. Verify claim 1 by actually running those tests with your change; verify the demonstration both ways (with the change: fails; revert the source change with `git apply -R` of your diff (do NOT use `git stash`: the stash is shared between all worktrees of this repository and other people are using it): passes).
 - Deliver into {out}/ (create it): `patch.diff` (output of `git diff` for the SOURCE change only, without the demo file; must apply with `git apply` on a clean checkout of the same HEAD), the demonstration file(s) copied there, and `notes.md` containing: what the change is and why it is plausible; which clause of the statement it breaks; exactly what is needed for it to manifest (sequence / input / interleaving / fault point); the exact commands you ran and their outcomes (existing tests with the change: pass; demo with change: FAIL; demo without: PASS).
 - Leave the worktree with your source change reverted (clean `git status` except possibly the untracked demo file).
 Final answer: a 5-line summary (what, where, what it needs to manifest, commands verified).""")
